@@ -192,4 +192,20 @@ def multiPassThrough : List (String × Bool) :=
    ("getTracerDiffusivity", true),
    ("impingementFactor", true)]
 
+/-- untrained BinarySurrogate, argument forwarding: (getter, thermodynamics method called, takes *args/**kwargs, [(named parameter, handed on as "pos" | "kw" | "kw:<other name>" | "drop")], [(further keyword argument of the thermodynamics method, handed on as)], parameter names of the thermodynamics method of the same name) -/
+def binaryForwarding : List (String × String × Bool × List (String × String) × List (String × String) × List String) :=
+  [("getDrivingForce", "getDrivingForce", true, [("x", "pos"), ("T", "pos"), ("precPhase", "pos")], [("removeCache", "kw"), ("local_phase_sampling_conditions", "kw")], ["x", "T", "precPhase", "removeCache", "local_phase_sampling_conditions"]),
+   ("getInterdiffusivity", "getInterdiffusivity", true, [("x", "pos"), ("T", "pos"), ("phase", "kw")], [("removeCache", "kw")], ["x", "T", "removeCache", "phase"]),
+   ("getInterfacialComposition", "getInterfacialComposition", false, [("T", "pos"), ("gExtra", "pos"), ("precPhase", "kw")], [], ["T", "gExtra", "precPhase"]),
+   ("getTracerDiffusivity", "getTracerDiffusivity", true, [("x", "pos"), ("T", "pos"), ("phase", "kw")], [("removeCache", "kw")], ["x", "T", "removeCache", "phase"])]
+
+/-- untrained MulticomponentSurrogate, argument forwarding (same layout) -/
+def multiForwarding : List (String × String × Bool × List (String × String) × List (String × String) × List String) :=
+  [("curvatureFactor", "curvatureFactor", true, [("x", "pos"), ("T", "pos"), ("precPhase", "pos")], [("removeCache", "kw"), ("searchDir", "kw"), ("computeSearchDir", "kw")], ["x", "T", "precPhase", "removeCache", "searchDir", "computeSearchDir"]),
+   ("getDrivingForce", "getDrivingForce", true, [("x", "pos"), ("T", "pos"), ("precPhase", "pos")], [("removeCache", "kw"), ("local_phase_sampling_conditions", "kw")], ["x", "T", "precPhase", "removeCache", "local_phase_sampling_conditions"]),
+   ("getGrowthAndInterfacialComposition", "getGrowthAndInterfacialComposition", true, [("x", "pos"), ("T", "pos"), ("dG", "pos"), ("R", "pos"), ("gExtra", "pos"), ("precPhase", "pos")], [("removeCache", "kw"), ("searchDir", "kw")], ["x", "T", "dG", "R", "gExtra", "precPhase", "removeCache", "searchDir"]),
+   ("getInterdiffusivity", "getInterdiffusivity", true, [("x", "pos"), ("T", "pos"), ("phase", "kw")], [("removeCache", "kw")], ["x", "T", "removeCache", "phase"]),
+   ("getTracerDiffusivity", "getTracerDiffusivity", true, [("x", "pos"), ("T", "pos"), ("phase", "kw")], [("removeCache", "kw")], ["x", "T", "removeCache", "phase"]),
+   ("impingementFactor", "impingementFactor", true, [("x", "pos"), ("T", "pos"), ("precPhase", "pos")], [("removeCache", "kw"), ("searchDir", "kw")], ["x", "T", "precPhase", "removeCache", "searchDir"])]
+
 end KawinV.Gen.C20
